@@ -4,6 +4,7 @@ Property theorems only (helper lemmas: KlogV/Lemmas/Clock.lean).  All statements
 minute / every instant (arithmetic, not enumeration).
 -/
 import KlogV.Lemmas.Clock
+import KlogV.Props.Tables
 namespace KlogV.C17
 
 /-- the current wall-clock time as klog reads it: `now.h:now.min`, unshifted, 24-hour -/
